@@ -401,6 +401,19 @@ class Runner:
             return set()
         return {idx for idx, s in self.aliased_entries() if s in self.mutated_slots}
 
+    def aliased_entry_holds(self, k):
+        """An entry whose stored inputs are caller arrays edited after the call now holds exactly the inputs ``k``
+        (the in-place edit turned it into a second entry for that value)."""
+        idxs = self.aliased_mutated_indices()
+        if not idxs:
+            return False
+        c = self.C.cache
+        for i in idxs:
+            inp = c._read_data(i, c.Group.INPUTS)
+            if set(inp) == set(self.in_names) and key_of(self.dc, inp) == k:
+                return True
+        return False
+
     def premutation_served(self, out_c=None, jc=None, req=None):
         """Were the outputs / Jacobian blocks of a value held by a caller array *before* its edit served?"""
         for p in self.premutation:
@@ -574,7 +587,8 @@ class Runner:
                 if rk in self.ran:
                     self.violation("body-rerun-for-seen-input", "full cache: at most one body run per distinct input",
                                    step=step, observed={"input": r, "runs_of_this_input": 2}, expected=1,
-                                   alias_ok=rk in {key_of(self.dc, p) for p in self.premutation},
+                                   alias_ok=(rk in {key_of(self.dc, p) for p in self.premutation}
+                                             or self.aliased_entry_holds(rk)),
                                    shadow=self.shadow_evidence(r))
             self.ran.add(rk)
         if len(new_runs) > 1:
